@@ -72,6 +72,9 @@ package cte
 //@   requires writer != nil
 //@   modifies _this.writer, _this.stringWriter
 //@   ensures _this.writer == writer && _this.stringWriter != nil
+// strings go to the SAME destination as bytes: the new writer itself or this Writer's own adapter,
+// never a destination kept from an earlier document (C16)
+//@   ensures _this.stringWriter == writer || (typeIs(_this.stringWriter, "*StringWriterAdapter") && payload(_this.stringWriter, "*StringWriterAdapter") == _this.adapter)
 
 //@ func (*EncoderEventReceiver).PrepareToEncode
 //@   requires writer != nil
